@@ -18,6 +18,11 @@ class Item:
     family: str = ""
     # known_id -> extra precondition clause that excludes that finding's region
     exclusions: Dict[str, str] = field(default_factory=dict)
+    # When a counterexample does not reproduce concretely (state leaking between CrossHair paths inside third-party
+    # code such as SQLAlchemy), split the condition into {exactly those arguments} and {everything else} and decide
+    # both again in fresh processes, instead of reporting a harness error right away.
+    isolate: bool = False
+    _depth: int = 0
 
 
 def source(header: str, items: Sequence[Item], excluded: Optional[Dict[str, List[str]]] = None) -> str:
@@ -70,6 +75,16 @@ def run_items(run: Run, header: str, items: Sequence[Item], *, per_condition_tim
                 elif r.state in (chx.POST_FAIL, chx.EXEC_ERR):
                     hm.replay(r)
                     if not r.reproduced:
+                        if it.isolate and it._depth < 3 and r.args is not None:
+                            names = [a.split(":")[0].strip() for a in it.params.split(",") if a.strip()]
+                            eq = " and ".join(f"{nm} == {val!r}" for nm, val in zip(names, r.args))
+                            for tag, clause in (("iso", eq), ("rest", f"not ({eq})")):
+                                nxt.append(Item(f"{it.name}_{tag}{it._depth}", it.params, f"({it.pre}) and ({clause})", it.call,
+                                                describe=it.describe, family=it.family, exclusions=it.exclusions,
+                                                isolate=True, _depth=it._depth + 1))
+                            run.notes.append(f"{it.name}: counterexample {r.args!r} did not reproduce concretely; "
+                                             f"condition split and re-decided in isolation")
+                            continue
                         run.harness_error(oname, it.family, {"message": r.message, "replay": r.replay_outcome}, secs)
                         continue
                     entry = classify(it, r.args, r.replay_outcome) if classify else None
